@@ -183,6 +183,13 @@ hwloc_synthetic_process_indexes(struct hwloc_synthetic_backend_data_s *data,
 	if (*tmp3 == ')' || *tmp3 == ' ')
 	  break;
 	tmp = (const char*) (tmp3+1);
+	if (tmp >= attr+length) {
+	  /* trailing ':', don't read after the end of the indexes attribute */
+	  if (verbose)
+	    fprintf(stderr, "Failed to read synthetic index interleaving loop after trailing ':'\n");
+	  free(loops);
+	  goto out_with_array;
+	}
       }
 
     } else {
